@@ -38,6 +38,7 @@ func SplitBraces(word *Word) bool {
 	acc := top
 	var cur *BraceExp
 	var open []*BraceExp
+	found := false // whether any valid brace expansion was added
 
 	pop := func() *BraceExp {
 		old := cur
@@ -130,6 +131,7 @@ func SplitBraces(word *Word) bool {
 				}
 				if !br.Sequence {
 					acc.Parts = append(acc.Parts, br)
+					found = true
 					break
 				}
 				var chars [2]bool
@@ -162,6 +164,7 @@ func SplitBraces(word *Word) bool {
 				}
 				if !broken {
 					acc.Parts = append(acc.Parts, br)
+					found = true
 					break
 				}
 				// return broken {x..y[..incr]} to a non-brace
@@ -180,7 +183,7 @@ func SplitBraces(word *Word) bool {
 		}
 		if last == 0 {
 			addLit(lit)
-		} else {
+		} else if last < len(lit.Value) { // avoid an empty trailing lit
 			left := *lit
 			left.Value = left.Value[last:]
 			addLit(&left)
@@ -200,6 +203,9 @@ func SplitBraces(word *Word) bool {
 			}
 			acc.Parts = append(acc.Parts, elem.Parts...)
 		}
+	}
+	if !found {
+		return false // only malformed brace expansions; leave the word untouched
 	}
 	*word = *top
 	return true
